@@ -439,6 +439,14 @@ impl<'i> BorrowedReadXml<'i> for Term<'i> {
                     anyhow!("mismatched term <name> and <family>").into(),
                 ));
             }
+            // An accepting term without any route-filter matches the whole address family: that
+            // is not an empty set of ranges and must not be read as one.
+            if from.route_filters.is_empty() {
+                return Err(ReadError::MissingElement {
+                    msg_type: "from",
+                    element: "route-filter",
+                });
+            }
             Ok(Self { name, from })
         } else {
             Err(ReadError::MissingElement {
